@@ -285,6 +285,22 @@ func (p *Path) readElemAt(o *Object, upto int, idx *Term) *Term {
 	return result
 }
 
+// external reports whether the object with this id existed before the current
+// merge region started, or is a global (or part of one) that was first touched
+// - and therefore lazily created - inside the region: writes to those are
+// visible after the join and must not be merged.
+func (p *Path) external(id int) bool {
+	if id <= p.mergeBaseObj {
+		return true
+	}
+	for _, r := range p.extRanges {
+		if id > r[0] && id <= r[1] {
+			return true
+		}
+	}
+	return false
+}
+
 func (p *Path) writeElem(o *Object, idx, v *Term) {
 	if o.ReadOnly {
 		p.unsupported("write to read-only object %s", o.Name)
@@ -292,7 +308,7 @@ func (p *Path) writeElem(o *Object, idx, v *Term) {
 	if v.S.W != o.ElemW {
 		p.unsupported("writeElem width mismatch %d vs %d", v.S.W, o.ElemW)
 	}
-	if p.guard != nil && o.ID <= p.mergeBaseObj {
+	if p.guard != nil && p.external(o.ID) {
 		panic(mergeAbort{"memory write in merge region"})
 	}
 	o.Log = append(o.Log, logEntry{kind: logStore, idx: idx, val: v})
@@ -305,7 +321,7 @@ func (p *Path) copyElems(dst *Object, dstOff *Term, src *Object, srcOff, n *Term
 	if dst.ReadOnly {
 		p.unsupported("copy to read-only object")
 	}
-	if p.guard != nil && dst.ID <= p.mergeBaseObj {
+	if p.guard != nil && p.external(dst.ID) {
 		panic(mergeAbort{"memory write in merge region"})
 	}
 	if dst.ElemW != src.ElemW {
@@ -332,7 +348,7 @@ func (p *Path) fillElems(dst *Object, off, n, v *Term) {
 	if dst.ReadOnly {
 		p.unsupported("fill of read-only object")
 	}
-	if p.guard != nil && dst.ID <= p.mergeBaseObj {
+	if p.guard != nil && p.external(dst.ID) {
 		panic(mergeAbort{"memory write in merge region"})
 	}
 	dst.Log = append(dst.Log, logEntry{kind: logFill, idx: off, n: n, val: v})
@@ -382,7 +398,7 @@ func (p *Path) loadObj(o *Object) Value {
 }
 
 func (p *Path) storeObj(o *Object, v Value) {
-	if p.guard != nil && o.ID <= p.mergeBaseObj {
+	if p.guard != nil && p.external(o.ID) {
 		panic(mergeAbort{"memory write in merge region"})
 	}
 	if o.ReadOnly {
